@@ -1574,3 +1574,240 @@ func c15Round3(c *Ctx) {
 			}())
 	}
 }
+
+// C17 REFLECT-ELEM: reflect.Type.Elem panics for a type that has no element
+// type.  In ParamParser (which runs on user input and has no recover) every
+// Type().Elem() call sits inside the `case reflect.Slice` (array/pointer/map)
+// clause of a switch over the same value's Kind().
+func c17ReflectElem(c *Ctx) {
+	const rule = "PANICSET"
+	f := c.fn(rule, "config", "ParamParser")
+	if f == nil {
+		return
+	}
+	info := f.Info()
+	n, bad := 0, ""
+	var stack []ast.Node
+	ast.Inspect(f.Body, func(m ast.Node) bool {
+		if m == nil {
+			stack = stack[:len(stack)-1]
+			return true
+		}
+		stack = append(stack, m)
+		call, ok := m.(*ast.CallExpr)
+		if !ok {
+			return true
+		}
+		recv, name, isM := methodCall(call)
+		if !isM || name != "Elem" || len(call.Args) != 0 {
+			return true
+		}
+		if t := info.TypeOf(recv); t == nil || t.String() != "reflect.Type" {
+			return true
+		}
+		// X in X.Type().Elem()
+		x := ""
+		if inner, ok := ast.Unparen(recv).(*ast.CallExpr); ok {
+			if r2, n2, ok := methodCall(inner); ok && n2 == "Type" {
+				x = core.ExprStr(r2)
+			}
+		}
+		n++
+		guarded := false
+		for i := len(stack) - 1; i >= 0; i-- {
+			cc, ok := stack[i].(*ast.CaseClause)
+			if !ok || i < 2 {
+				continue
+			}
+			sw, ok := stack[i-2].(*ast.SwitchStmt)
+			if !ok || sw.Tag == nil || core.ExprStr(sw.Tag) != x+".Kind()" {
+				continue
+			}
+			for _, e := range cc.List {
+				switch core.ExprStr(e) {
+				case "reflect.Slice", "reflect.Array", "reflect.Pointer", "reflect.Ptr", "reflect.Map", "reflect.Chan":
+					guarded = true
+				}
+			}
+		}
+		if !guarded && bad == "" {
+			bad = fmt.Sprintf("%s at %s is not inside a `case reflect.Slice` clause of a switch over %s.Kind()", core.ExprStr(call), c.pos(call.Pos()), x)
+		}
+		return true
+	})
+	c.R.Checkf(rule, "type-elem-only-for-element-types@ParamParser", c.pos(f.Pos()), bad == "" && n >= 1,
+		"each of the %d reflect.Type.Elem() calls of ParamParser is made for a value whose kind was switched to slice/array/pointer/map%s", n, func() string {
+			if bad != "" {
+				return " — VIOLATED: " + bad + ": for a scalar field (e.g. `tproxy_port: foo(bar)`) Elem panics with 'reflect: Elem of invalid type' instead of config.New returning an error"
+			}
+			return ""
+		}())
+}
+
+// C18: the single normalisation point strips a port from every sniffed value
+func c18NormalizeStripsPort(c *Ctx) {
+	const rule = "NORMALISE"
+	f := c.fn(rule, "component/sniffing", "NormalizeDomain")
+	if f == nil {
+		return
+	}
+	info := f.Info()
+	ok := false
+	ast.Inspect(f.Body, func(m ast.Node) bool {
+		is, isIf := m.(*ast.IfStmt)
+		if !isIf || is.Init == nil {
+			return true
+		}
+		as, isAs := is.Init.(*ast.AssignStmt)
+		if !isAs || len(as.Rhs) != 1 {
+			return true
+		}
+		call, isC := as.Rhs[0].(*ast.CallExpr)
+		if !isC {
+			return true
+		}
+		if cal := core.Callee(info, call); cal == nil || cal.Pkg() == nil || cal.Pkg().Path() != "net" || cal.Name() != "SplitHostPort" {
+			return true
+		}
+		hostId, isId := as.Lhs[0].(*ast.Ident)
+		if !isId {
+			return true
+		}
+		for _, st := range is.Body.List {
+			if rs, isR := st.(*ast.ReturnStmt); isR && len(rs.Results) == 1 {
+				ast.Inspect(rs.Results[0], func(k ast.Node) bool {
+					if id, isI := k.(*ast.Ident); isI && info.ObjectOf(id) == info.ObjectOf(hostId) {
+						ok = true
+					}
+					return true
+				})
+			}
+		}
+		return true
+	})
+	c.R.Checkf(rule, "sniffed-name-with-port-is-stripped@NormalizeDomain", c.pos(f.Pos()), ok,
+		"NormalizeDomain (applied to the result of every sniffer: TLS SNI, QUIC SNI, HTTP Host) splits host:port and returns the host part: a name that already carries a port must not reach ChooseDialTarget with it, or domain+/domain++ dial `name:8443` for a connection to port 443")
+}
+
+// C18: DNS knowledge is filed under the base key (name + type), the key HasDnsKnowledge looks up
+func c18KnowledgeKey(c *Ctx) {
+	const rule = "KNOWLEDGE"
+	n := 0
+	for _, f := range c.P.FuncsIn("control") {
+		info := f.Info()
+		core.EachCall(f.Body, core.Deep, func(call *ast.CallExpr) {
+			cal := core.Callee(info, call)
+			if cal == nil || cal.Name() != "rememberDnsKnowledge" || len(call.Args) != 2 {
+				return
+			}
+			n++
+			arg := ast.Unparen(call.Args[0])
+			isBase := func(e ast.Expr) bool {
+				if cl, ok := ast.Unparen(e).(*ast.CallExpr); ok {
+					if cc := core.Callee(info, cl); cc != nil && cc.Name() == "dnsCacheBaseKey" {
+						return true
+					}
+				}
+				return false
+			}
+			ok := isBase(arg)
+			if id, isId := arg.(*ast.Ident); isId && !ok {
+				obj := info.ObjectOf(id)
+				ast.Inspect(f.Body, func(k ast.Node) bool {
+					if as, isAs := k.(*ast.AssignStmt); isAs && len(as.Lhs) == 1 && len(as.Rhs) == 1 {
+						if lid, isL := as.Lhs[0].(*ast.Ident); isL && info.ObjectOf(lid) == obj && isBase(as.Rhs[0]) {
+							ok = true
+						}
+					}
+					return true
+				})
+			}
+			c.R.Checkf(rule, "knowledge-filed-under-the-base-key@"+strings.TrimPrefix(f.Name, "control."), c.pos(call.Pos()), ok,
+				"rememberDnsKnowledge is keyed by %s: it must be dnsCacheBaseKey(…) (name + type without the upstream scope), the key HasDnsKnowledge looks up — under a scoped key the name is unknown after a reload and domain mode dials the IP", core.ExprStr(arg))
+		})
+	}
+	c.R.Floor(rule+"/keys", n, 2)
+}
+
+// C19: the address-to-words converter is the plain four-word copy
+func c19WordsConverter(c *Ctx) {
+	const rule = "KEY"
+	f := c.fn(rule, "common", "Ipv6ByteSliceToUint32Array")
+	if f == nil {
+		return
+	}
+	rets, stores, bad := 0, 0, ""
+	ast.Inspect(f.Body, func(m ast.Node) bool {
+		switch x := m.(type) {
+		case *ast.ReturnStmt:
+			rets++
+		case *ast.AssignStmt:
+			if len(x.Lhs) != 1 || len(x.Rhs) != 1 {
+				return true
+			}
+			ix, ok := x.Lhs[0].(*ast.IndexExpr)
+			if !ok || core.ExprStr(ix.X) != "ip" {
+				return true
+			}
+			stores++
+			call, isC := x.Rhs[0].(*ast.CallExpr)
+			okForm := false
+			if isC && strings.HasSuffix(core.ExprStr(call.Fun), "NativeEndian.Uint32") && len(call.Args) == 1 {
+				if sl, isS := call.Args[0].(*ast.SliceExpr); isS && sl.Low != nil && sl.High != nil {
+					lo, hi, idx := nospace(core.ExprStr(sl.Low)), nospace(core.ExprStr(sl.High)), nospace(core.ExprStr(ix.Index))
+					if hi == lo+"+4" && idx == lo+"/4" {
+						okForm = true
+					}
+				}
+			}
+			if !okForm && bad == "" {
+				bad = core.ExprStr2(x)
+			}
+		}
+		return true
+	})
+	c.R.Checkf(rule, "address-words-are-the-16-bytes-in-order@Ipv6ByteSliceToUint32Array", c.pos(f.Pos()), bad == "" && rets == 1 && stores >= 1,
+		"word k of the key is the native-endian load of bytes 4k..4k+3 for every k, with a single exit (no per-shape fast path): %d store(s), %d return(s)%s", stores, rets, func() string {
+			if bad != "" {
+				return " — VIOLATED: " + bad
+			}
+			if rets != 1 {
+				return " — VIOLATED: an early return builds the key differently for some addresses (two distinct addresses can get one domain_routing_map / LPM key)"
+			}
+			return ""
+		}())
+}
+
+// C20: ending a suppression scope decrements the counter by one, whatever its value
+func c20EndDecrements(c *Ctx) {
+	const rule = "SUPPRESS"
+	f := c.fn(rule, "component/outbound/dialer", "EndReloadProxyFailureSuppression")
+	if f == nil {
+		return
+	}
+	info := f.Info()
+	n, ok := 0, false
+	detail := ""
+	ast.Inspect(f.Body, func(m ast.Node) bool {
+		call, isC := m.(*ast.CallExpr)
+		if !isC {
+			return true
+		}
+		_, name, isM := methodCall(call)
+		if !isM || name != "CompareAndSwap" || len(call.Args) != 2 {
+			return true
+		}
+		n++
+		oldId, isId := ast.Unparen(call.Args[0]).(*ast.Ident)
+		be, isB := ast.Unparen(call.Args[1]).(*ast.BinaryExpr)
+		if isId && isB && be.Op == token.SUB && core.ExprStr(be.Y) == "1" {
+			if xid, isX := ast.Unparen(be.X).(*ast.Ident); isX && info.ObjectOf(xid) == info.ObjectOf(oldId) {
+				ok = true
+			}
+		}
+		detail = core.ExprStr(call)
+		return true
+	})
+	c.R.Checkf(rule, "end-decrements-any-positive-count@EndReloadProxyFailureSuppression", c.pos(f.Pos()), ok && n == 1,
+		"the scope counter is lowered by compare-and-swap from the value just loaded to that value minus one (%s): scopes can overlap (a new request is admitted between the release of the flag and the end of the previous scope), and a release that only handles the count 1 leaves node-failure reports muted for ever at 2", detail)
+}
